@@ -303,6 +303,7 @@ type KVProfile struct {
 	Select    int  // 1-in-N steps switches the embedded caller's database (0 = never)
 	TickHeavy bool // advance the clock before most steps
 	ExpiryMix bool // bias towards commands that set or observe deadlines
+	Swap      int  // 1-in-N steps is a SWAPDB between two of Dbs (0 = never)
 	Dbs       []int
 }
 
@@ -336,6 +337,17 @@ func RandomKVPrograms(seed int64, n, length int, prof KVProfile) []Program {
 			}
 			if prof.Select > 0 && r.Intn(prof.Select) == 0 {
 				p.Steps = append(p.Steps, Step{Kind: "select", Db: pick(r, prof.Dbs), Tick: t})
+				continue
+			}
+			if prof.Swap > 0 && r.Intn(prof.Swap) == 0 {
+				a, b := I(int64(pick(r, prof.Dbs))), I(int64(pick(r, prof.Dbs)))
+				switch r.Intn(8) {
+				case 0:
+					b = I(-1)
+				case 1:
+					a = B("x")
+				}
+				p.Steps = append(p.Steps, Step{Cmd: []Tok{S("SWAPDB"), a, b}, Tick: t})
 				continue
 			}
 			cmd := genKV(r, keys, now)
